@@ -1,5 +1,5 @@
 """Property -> rules table.  Rules are functions (ctx, repo)."""
-from .rules import ndim, iface, wrappers, rng, mech, errmodels, popmodels, switch, copies, cursors, reduced
+from .rules import ndim, iface, wrappers, rng, mech, errmodels, popmodels, switch, copies, cursors, reduced, layout
 
 PROPS = {}
 
@@ -137,6 +137,25 @@ prop('C06',
                  'affine noise structure of `sample` equal those recognised '
                  'from the density; scipy truncation bounds are standardised '
                  'correctly; reported moments equal the closed-form moments.')
+
+prop('C07',
+     [layout.r07_1, layout.r07_3, layout.r07_4, iface.r02_7, rng.r16_2],
+     undecided=['sort stability of np.argsort for large selections',
+                'numerical equality with the per-individual evaluation'],
+     assumptions=COMMON_ASSUME + [
+         'numpy reshape/flatten are C-ordered; fancy indexing with two '
+         'index arrays of equal length yields one axis'],
+     technique='symbolic shape/layout abstract interpretation (ordered '
+               'nesting of flattened axes) of the covariate transform, its '
+               'adjoint and the name lists; def-use provenance of the '
+               'selection indices',
+     explanation='Decides that the flat coefficient vector of the covariate '
+                 'model is read (reshape), differentiated (flatten of the '
+                 'adjoint) and named in the same (selected > covariate) '
+                 'layout for all n_selected, n_cov; that forward and adjoint '
+                 'shapes agree; that names are selected with the covariate '
+                 'model\'s own normalised selection; that membership tests '
+                 'do not meet ndarray rows.')
 
 prop('C08',
      [reduced.r08_1, reduced.r08_2, reduced.r08_3, reduced.r08_4,
